@@ -49,9 +49,12 @@ def components(tier):
                            "bp": lambda: D.BeliefPropagationDecoder(enc, bp_iters=5), "minsum": lambda: D.MinSumLDPCDecoder(enc, bp_iters=5),
                            "wagner": lambda: D.WagnerSoftDecisionDecoder(enc), "inverse": lambda: (lambda x: enc.inverse_encode(x)[0])}[dname]()
                 n, k = enc.code_length, enc.code_dimension
-                t = {"syndrome": 1, "ml": 1, "bm": 1, "rm_majority": 1, "inverse": 1}.get(dname, 0)
-                if spec["family"] in ("repetition", "spc", "generic", "rs"):
-                    t = 0 if spec["family"] != "repetition" else 1
+                # correctable weight: the code's true capability (tie-free words for the complete decoders)
+                from ..ref import gf2 as _g
+                rows_ = _g.rows_from_matrix(enc(torch.eye(k)).detach().numpy())
+                t = (_g.true_min_distance(rows_, n) - 1) // 2 if dname in ("syndrome", "ml", "bm", "rm_majority", "inverse") else 0
+                if dname == "inverse" and spec["family"] == "hamming":
+                    t = min(t, 1)
                 soft = dname in ("bp", "minsum", "wagner", "rm_soft")
 
                 def gen(rng, rows):
@@ -60,11 +63,14 @@ def components(tier):
                         C = enc(torch.from_numpy(M)).numpy()
                     if soft:
                         return ((1 - 2 * C) * rng.uniform(0.5, 4.0, size=C.shape)).astype(np.float32)
-                    # planted: erroneous rows (even indices) among zero-syndrome rows
+                    # planted: rows with 1..t errors at seeded positions among zero-syndrome rows (row 1 stays clean)
                     if t:
-                        for r in range(0, rows, 2):
-                            p = rng.randint(0, n)
-                            C[r, p] = 1 - C[r, p]
+                        for r in range(rows):
+                            if r == 1:
+                                continue
+                            w = int(rng.randint(1, t + 1))
+                            for p_ in rng.choice(n, size=w, replace=False):
+                                C[r, p_] = 1 - C[r, p_]
                     return C.astype(np.float32)
                 return dict(fn=lambda x: dec(x), n_in=n, gen=gen, dtype="llr" if soft else "bits")
             comps.append((f"dec_{dname}_{spec['family']}", {**cat.cell_of(spec), "component": "decoder_" + dname}, dec_factory))
@@ -247,8 +253,10 @@ def check_component(ctx, cell, case):
 
 def unit_components(ctx, names, n_seeds):
     for name in names:
-        for sd in range(n_seeds):
-            rows = [4, 2, 6, 3, 1, 5][sd % 6]
+        # decoders get many more full-size batches: interactions between members (shared syndromes, caches) need collisions
+        extra = 3 * n_seeds if name.startswith(("dec_", "polar_")) else 0
+        for sd in range(n_seeds + extra):
+            rows = [4, 2, 6, 3, 1, 5][sd % 6] if sd < n_seeds else 6
             check_component(ctx, None, {"component": name, "seed": ctx.seed * 100 + sd, "rows": rows})
 
 
